@@ -271,6 +271,8 @@ func subsets(xs []string, pairsOnly bool) [][]string {
 	return out
 }
 
+const opOrderFamily = true
+
 func genShareFamilies(static []string, thorough bool) {
 	known := map[string]bool{}
 	for _, o := range static {
@@ -309,6 +311,14 @@ func genShareFamilies(static []string, thorough bool) {
 						q.M = k
 					}
 					emit(finalize(single(fmt.Sprintf("uniq:%s:%s.%s.%d", fam.name, strings.Join(sub, "+"), mode, k), 8, q, sos, "iverilog")))
+					if mode == "ha" && k == 1 && opOrderFamily {
+						// the same opcode set with the "Op" array in another order (loaded from JSON)
+						for _, ord := range []string{"rev", "rot"} {
+							t := finalize(single(fmt.Sprintf("oporder:%s:%s:%s", ord, fam.name, strings.Join(sub, "+")), 8, q, sos, "iverilog"))
+							t.OpOrder = ord
+							emit(t)
+						}
+					}
 				}
 			}
 		}
